@@ -372,7 +372,9 @@ def run(ctx: Ctx) -> None:
     bad1["back"][0]["opts"][0][1] = bad1["back"][0]["opts"][0][1] + [33]      # the value changed on the way back
     bad2 = json.loads(json.dumps(recs[good[1]]))
     bad2["dict"][0]["opts"][0][1] = bad2["dict"][0]["opts"][0][1] + [33]      # a value the model does not produce
-    bad3 = json.loads(json.dumps(recs[good[2]]))
+    # (the corrupted value must be one the replacement has no business touching: without the local directory in it)
+    g3 = next(i for i in good[2:] if LOCAL_DIR not in S(recs[i]["dict"][0]["opts"][0][1]))
+    bad3 = json.loads(json.dumps(recs[g3]))
     bad3["dictr"][0]["opts"][0][1] = [120] + bad3["dictr"][0]["opts"][0][1]   # replacement touched a value
     recs_all = recs + [bad1, bad2, bad3]
     verdicts = validate(ctx, recs_all, "generated")
